@@ -22,6 +22,7 @@ from vlib.core import REPO, ROOT, HarnessError, Res, enc
 PROP = "C03"
 SHARDS = {"quick": 16, "thorough": 16}
 TIME_LIMIT = {"quick": 2400, "thorough": 8 * 3600}
+CASE_TIMEOUT_S = 600   # a case that takes longer is inconclusive (counted as ambiguous), never a violation
 RULE = ("Hypothesis: messy fields (vlib/fields.py: 96..256 px, several projections incl. a high-dec ARC family, 0..60 "
         "sky-defined sources of both signs on a jittered grid or at random, blends of 2-4 components, single-pixel spikes and "
         "2-5 pixel specks that trigger the small-island flags, NaN rectangles cutting through sources, white / "
@@ -85,6 +86,33 @@ def synth_catalogue(F, c):
         s.psf_a, s.psf_b, s.psf_pa = F["beam"][0] * 3600, F["beam"][1] * 3600, F["beam"][2]
         s.uuid = "syn-%03d-%d" % (island, num)
         out.append(s)
+    # a few catalogue entries that cannot be measured (off the image), spread over the island numbers so that some fall
+    # into the first batches of 20 groups: a batch then returns fewer islands than it was given
+    rng = np.random.default_rng(c["field"]["seed"] + 23)
+    rows, cols = F["shape"]
+    nextra = int(rng.integers(0, 4))
+    for k in range(nextra):
+        s = ComponentSource()
+        ra, dec = (float(v) for v in F["w"].pix2sky(-30.0 - 10 * k, rows / 2.0))
+        s.ra, s.dec = ra, dec
+        s.peak_flux = 5.0
+        s.a, s.b, s.pa = F["beam"][0] * 3600, F["beam"][1] * 3600, 0.0
+        # island numbers are real numbers between existing ones would not be valid: renumber below
+        s.island, s.source = -1, 0
+        s.err_ra = s.err_dec = 1e-5
+        s.err_a = s.err_b = 0.1
+        s.err_pa = 1.0
+        s.psf_a, s.psf_b, s.psf_pa = F["beam"][0] * 3600, F["beam"][1] * 3600, F["beam"][2]
+        s.uuid = "syn-off-%d" % k
+        out.insert(int(rng.integers(0, max(1, min(len(out), 25)))), s)
+    # renumber the islands in list order (keeping the members of an island together)
+    remap, nxt = {}, 0
+    for s in out:
+        key = (s.island, s.uuid) if s.island == -1 else (s.island, None)
+        if key not in remap:
+            nxt += 1
+            remap[key] = nxt
+        s.island = remap[key]
     return out
 
 
